@@ -377,7 +377,9 @@ func (conn *Conn) ConnectContext(ctx context.Context) error {
 	// so the connect mechanics have been delegated to internalConnect.
 	err := conn.internalConnect(ctx)
 	if err == nil {
+		vhook("conn.register.begin", conn)
 		conn.dispatch(&Line{Cmd: REGISTER, Time: time.Now()})
+		vhook("conn.register.end", conn)
 	}
 	return err
 }
@@ -386,12 +388,16 @@ func (conn *Conn) ConnectContext(ctx context.Context) error {
 func (conn *Conn) internalConnect(ctx context.Context) error {
 	conn.mu.Lock()
 	defer conn.mu.Unlock()
+	vhook("conn.lock", conn)
+	defer vhook("conn.unlock", conn)
 	conn.initialise()
 
 	if conn.cfg.Server == "" {
+		vhook("conn.refused", conn, "noserver")
 		return fmt.Errorf("irc.Connect(): cfg.Server must be non-empty")
 	}
 	if conn.connected {
+		vhook("conn.refused", conn, "connected")
 		return fmt.Errorf("irc.Connect(): Cannot connect to %s, already connected.", conn.cfg.Server)
 	}
 
@@ -431,6 +437,7 @@ func (conn *Conn) internalConnect(ctx context.Context) error {
 
 	conn.postConnect(ctx, true)
 	conn.connected = true
+	vhook("conn.up", conn)
 	return nil
 }
 
@@ -484,17 +491,22 @@ func hasPort(s string) bool {
 // It shuttles data from the output channel to write(), and is killed
 // when the context is cancelled.
 func (conn *Conn) send(ctx context.Context) {
+	vhook("send.start", conn)
+	defer vhook("send.exit", conn)
 	for {
 		select {
 		case line := <-conn.out:
+			vhook("send.deq", conn, line)
 			if err := conn.write(line); err != nil {
 				logging.Error("irc.send(): %s", err.Error())
+				vhook("send.err", conn, err)
 				// We can't defer this, because Close() waits for it.
 				conn.wg.Done()
 				conn.Close()
 				return
 			}
 		case <-ctx.Done():
+			vhook("send.ctx", conn)
 			// control channel closed, bail out
 			conn.wg.Done()
 			return
@@ -506,12 +518,15 @@ func (conn *Conn) send(ctx context.Context) {
 // It receives "\r\n" terminated lines from the server, parses them into
 // Lines, and sends them to the input channel.
 func (conn *Conn) recv() {
+	vhook("recv.start", conn)
+	defer vhook("recv.exit", conn)
 	for {
 		s, err := conn.io.ReadString('\n')
 		if err != nil {
 			if err != io.EOF {
 				logging.Error("irc.recv(): %s", err.Error())
 			}
+			vhook("recv.err", conn, err)
 			// We can't defer this, because Close() waits for it.
 			conn.wg.Done()
 			conn.Close()
@@ -519,11 +534,15 @@ func (conn *Conn) recv() {
 		}
 		s = strings.Trim(s, "\r\n")
 		logging.Debug("<- %s", s)
+		vhook("recv.read", conn, s)
 
 		if line := ParseLine(s); line != nil {
 			line.Time = time.Now()
+			vhook("recv.enq.begin", conn, line)
 			conn.in <- line
+			vhook("recv.enq.end", conn, line)
 		} else {
+			vhook("recv.reject", conn, s)
 			logging.Warn("irc.recv(): problems parsing line:\n  %s", s)
 		}
 	}
@@ -537,10 +556,12 @@ func (conn *Conn) ping(ctx context.Context) {
 	for {
 		select {
 		case <-tick.C:
+			vhook("ping.tick", conn)
 			conn.Ping(fmt.Sprintf("%d", time.Now().UnixNano()))
 		case <-ctx.Done():
 			// control channel closed, bail out
 			tick.Stop()
+			vhook("ping.exit", conn)
 			return
 		}
 	}
@@ -550,11 +571,16 @@ func (conn *Conn) ping(ctx context.Context) {
 // It pulls Lines from the input channel and dispatches them to any
 // handlers that have been registered for that IRC verb.
 func (conn *Conn) runLoop(ctx context.Context) {
+	vhook("loop.start", conn)
+	defer vhook("loop.exit", conn)
 	for {
 		select {
 		case line := <-conn.in:
+			vhook("loop.deq", conn, line)
 			conn.dispatch(line)
+			vhook("loop.dispatched", conn, line)
 		case <-ctx.Done():
+			vhook("loop.ctx", conn)
 			// control channel closed, trigger Cancel() to clean
 			// things up properly and bail out
 
@@ -584,6 +610,7 @@ func (conn *Conn) write(line string) error {
 	if err := conn.io.Flush(); err != nil {
 		return err
 	}
+	vhook("write.ok", conn, line)
 	if strings.HasPrefix(line, "PASS") {
 		line = "PASS **************"
 	}
@@ -602,6 +629,7 @@ func (conn *Conn) rateLimit(chars int) time.Duration {
 		conn.badness = 0
 	}
 	conn.lastsent = time.Now()
+	vhook("write.rl", conn, chars, elapsed, conn.badness, conn.lastsent)
 	// If we've sent more than 10 second's worth of lines according to the
 	// calculation above, then we're at risk of "Excess Flood".
 	if conn.badness > 10*time.Second {
@@ -617,12 +645,15 @@ func (conn *Conn) Close() error {
 	// Guard against double-call of Close() if we get an error in send()
 	// as calling sock.Close() will cause recv() to receive EOF in readstring()
 	conn.mu.Lock()
+	vhook("close.lock", conn)
 	if !conn.connected {
+		vhook("close.noop", conn)
 		conn.mu.Unlock()
 		return nil
 	}
 	logging.Info("irc.Close(): Disconnected from server.")
 	conn.connected = false
+	vhook("close.mark", conn)
 	err := conn.sock.Close()
 	if conn.die != nil {
 		conn.die()
@@ -632,10 +663,13 @@ func (conn *Conn) Close() error {
 	conn.drainIn()
 	conn.drainOut()
 	conn.wg.Wait()
+	vhook("close.waited", conn)
 	conn.mu.Unlock()
+	vhook("close.unlock", conn)
 	// Dispatch after closing connection but before reinit
 	// so event handlers can still access state information.
 	conn.dispatch(&Line{Cmd: DISCONNECTED, Time: time.Now()})
+	vhook("close.dispatched", conn)
 	return err
 }
 
